@@ -742,7 +742,58 @@ class WinterCycle(Monitor):
             check(k, r.world.now_us)
 
 
-SETTLED_MONITORS = [C01, C01b, C02, C05i, C06a, C07a, C08, C12a, C12b, C13a, C13c, C15a, C16a, C17a, Liveness, Timed, PhaseTimes, WinterCycle, BackwashDue]
+class C04a(Monitor):
+    """C04 on every explored run: once the initial fill has completed (the tank controller has been in low / normal / high), a
+    level that reads below too_low — or a dead level sensor — for more than 30 s (+ the scheduling allowance) leaves the whole
+    system halted: Filtration in `halt` (C01 then applies to the outputs).  Runs in which the tank controller itself is slow
+    (a `lag` action on Tank or Filtration inside the interval) are not judged: the 30 s presuppose prompt scheduling."""
+    pid = "C04"
+
+    def attach(self, r):
+        self.below_since = None
+        self.filled = False
+        self.lagged = False
+
+    def _too_low(self, r):
+        try:
+            import controller.tank as T
+            lim = float(T.Tank.levels_too_low)
+        except Exception:  # noqa: BLE001
+            lim = 10.0
+        s = r.sys
+        dead = s.adc.fault is True
+        lvl = (s.adc.raw - s.adc_low) * 100.0 / (s.adc_high - s.adc_low)
+        return dead or lvl < lim
+
+    def before_action(self, r, a):
+        if a and a[0] in ("lag", "lagcmd", "postlag", "racelag") and a[1] in ("Tank", "Filtration"):
+            self.lagged = True
+
+    def settled(self, r):
+        if not hasattr(self, "filled"):
+            self.attach(r)
+        s = r.sys
+        if not _alive(r, "Tank") or not _alive(r, "Filtration"):
+            self.below_since = None
+            return
+        st = s.state("Tank")
+        if st in ("low", "normal", "high"):
+            self.filled = True
+        if st == "halt" and s.state("Filtration") == "halt":
+            self.filled = False  # a restart begins with a new initial fill
+        low = self._too_low(r)
+        now = r.world.now_us
+        if low and self.filled:
+            if self.below_since is None:
+                self.below_since = now
+                self.lagged = False
+            elif now - self.below_since > 33_000_000 and not self.lagged and s.state("Filtration") != "halt":
+                r.report("C04", "not-halted-with-tank-too-low:" + st, f"the tank level has read below too_low (or the sensor has been dead) for {(now - self.below_since) / 1e6:.0f} s after the initial fill; tank controller: {st}, filtration: {s.state('Filtration')} (not halted)")
+        else:
+            self.below_since = None
+
+
+SETTLED_MONITORS = [C04a, C01, C01b, C02, C05i, C06a, C07a, C08, C12a, C12b, C13a, C13c, C15a, C16a, C17a, Liveness, Timed, PhaseTimes, WinterCycle, BackwashDue]
 
 
 def all_monitors():
